@@ -154,6 +154,8 @@ def run_case(case):
         elif k == "stay":
             pass
         specs.append(spec)
+    if case.get("pre_run"):
+        specs.insert(0, {"timeline": [[0.3, ["data", rm.encode_frame(1, rm.TEXT, b"earlier")]]], "default_pong": 0.01})
     sc = simpeers.Scenario(sched, net, specs, default="refused")
     problems = []
     orig_outcome = net.connect_outcome
@@ -194,6 +196,26 @@ def run_case(case):
             rk = {}
         if ping:
             rk.update(ping_interval=ping[0], ping_timeout=ping[1])
+        if case.get("pre_run"):
+            # an earlier, ordinary run on the same object, ended by the application's own close(): nothing of it may shorten a later wait
+            def pre_close():
+                sched.block(lambda: app.keep_running, None, "pre-wait-start")
+                sched.block(None, 1.0, "pre-closer")
+                app.close()
+
+            pc = fth.Thread(target=pre_close, name="pre-closer")
+            pc.start()
+            if ext:
+                prel = FakeRel(sched)
+                app.run_forever(dispatcher=prel, **rk)
+                prel.dispatch(until=sched.now + 5.0)
+            else:
+                app.run_forever(**rk)
+            pc.join()
+            sched.block(None, 2.0, "between-runs")
+            res["base"], res["skip_attempts"], res["skip_peers"] = sched.now, len(net.attempts), len(sc.peers)
+            del trace[:]
+            del problems[:]
         closer = None
         if close_at is not None:
             def close_later():
@@ -206,7 +228,7 @@ def run_case(case):
         if ext:
             rel = FakeRel(sched)
             res["ret"] = app.run_forever(dispatcher=rel, **rk)
-            rel.dispatch(until=total)
+            rel.dispatch(until=res.get("base", 0.0) + total)
             res["rel_errors"] = rel.errors
         else:
             res["ret"] = app.run_forever(**rk)
@@ -235,6 +257,23 @@ def run_case(case):
         obs.fail(f"{tag}|ping-thread-alive-after-run", f"ping threads {res['alive_after']} still alive when run_forever had returned")
     for e in res.get("rel_errors", []):
         obs.fail(exc_bucket(f"{tag}|exception-escaped-into-external-loop", e), f"{type(e).__name__}: {e}")
+    if case.get("pre_run") and "base" in res:
+        # everything below is about the second run: drop the first and measure time from the start of the second
+        b = res["base"]
+        del net.attempts[: res["skip_attempts"]]
+        del sc.peers[: res["skip_peers"]]
+        for a_ in net.attempts:
+            a_["t"] -= b
+        sc.peers[:] = [(i_ - 1, p_) for i_, p_ in sc.peers]  # (attempt numbers without the first run's)
+        for _i, p_ in sc.peers:
+            if p_.established_at is not None:
+                p_.established_at -= b
+        trace[:] = [(e[0] - b,) + tuple(e[1:]) for e in trace]
+        for k_ in ("closed_at", "t_end"):
+            if res.get(k_) is not None:
+                res[k_] -= b
+        if attempts and case.get("pre_run"):
+            pass
     # expected attempt times: walk the *observed* attempts, predicting each next one from the previous outcome
     got_times = [a["t"] for a in net.attempts]
     closed_at = res.get("closed_at")
@@ -395,6 +434,7 @@ def cases(draw):
             a["chatty"] = round(ping[1] * draw(st.sampled_from([0.3, 0.7])), 3)
         att.append(a)
     c = {"attempts": att, "interval": interval, "external": ext, "on_reconnect": draw(st.booleans()), "ping": ping, "run_for": 200.0, "via_global": draw(st.integers(0, 3)) == 0,
+         "pre_run": draw(st.integers(0, 3)) == 0,
          "secure": draw(st.integers(0, 3)) == 0}
     stop = draw(st.sampled_from(["server-close", "app-close", "app-close-any"]))
     if stop == "server-close":
